@@ -2,7 +2,7 @@
 The farm genesis round trip: the export of a well-formed state validates, imports, and the
 imported state answers every query like the original.
 -/
-import Irismod.Proofs.FarmGenesisWF
+import Irismod.Proofs.FarmGenesisEscrow
 
 namespace Irismod.Proofs.FarmGenesis
 open Irismod Irismod.Sdk Irismod.Farm Irismod.FarmGenesis Irismod.Proofs.GenesisList Irismod.Proofs.Farm Irismod.Spec
@@ -99,6 +99,7 @@ structure SameEnv (s s' : State) : Prop where
   height : s'.height = s.height
   bank   : s'.bank = s.bank
   ledger : s'.ledger = s.ledger
+  cp     : s'.cp = s.cp
 
 theorem importPool_spec (s : State) (id : PoolId) (p : Pool) :
     (importPool s id p).pools = AMap.set s.pools id p ∧ (importPool s id p).farmers = s.farmers ∧
@@ -112,7 +113,7 @@ theorem importPool_spec (s : State) (id : PoolId) (p : Pool) :
     have hq : ∀ e, e ∈ (enqueue (setPool s id p) id p.endH).queue ↔ e ∈ s.queue ∨ e = (p.endH, id) := by
       intro e; rw [mem_enqueue]; rfl
     refine ⟨by unfold enqueue; split <;> rfl, by unfold enqueue; split <;> rfl,
-      ⟨by unfold enqueue; split <;> rfl, by unfold enqueue; split <;> rfl, by unfold enqueue; split <;> rfl⟩,
+      ⟨by unfold enqueue; split <;> rfl, by unfold enqueue; split <;> rfl, by unfold enqueue; split <;> rfl, by unfold enqueue; split <;> rfl⟩,
       by unfold enqueue; split <;> rfl, by unfold enqueue; split <;> rfl, by unfold enqueue; split <;> rfl, ?_, ?_⟩
     · intro e; rw [hq]
       constructor
@@ -124,7 +125,7 @@ theorem importPool_spec (s : State) (id : PoolId) (p : Pool) :
         · exact Or.inr h.1
     · intro hn; exact nodup_enqueue (s := setPool s id p) hn
   · rename_i hle
-    refine ⟨rfl, rfl, ⟨rfl, rfl, rfl⟩, rfl, rfl, rfl, ?_, fun hn => hn⟩
+    refine ⟨rfl, rfl, ⟨rfl, rfl, rfl, rfl⟩, rfl, rfl, rfl, ?_, fun hn => hn⟩
     intro e
     constructor
     · intro h; exact Or.inl h
@@ -138,12 +139,12 @@ theorem importPools_spec : ∀ (l : List (PoolId × Pool)) (s : State),
     (importPools s l).resp = s.resp ∧
     (∀ e, e ∈ (importPools s l).queue ↔ e ∈ s.queue ∨ ∃ x ∈ l, e = (x.2.endH, x.1) ∧ s.height ≤ x.2.endH) ∧
     (s.queue.Nodup → (importPools s l).queue.Nodup)
-  | [], s => ⟨rfl, rfl, ⟨rfl, rfl, rfl⟩, rfl, rfl, rfl, by intro e; simp [importPools], fun h => h⟩
+  | [], s => ⟨rfl, rfl, ⟨rfl, rfl, rfl, rfl⟩, rfl, rfl, rfl, by intro e; simp [importPools], fun h => h⟩
   | (id, p) :: t, s => by
     obtain ⟨a1, a2, a3, a4, a5, a6, a7, a8⟩ := importPool_spec s id p
     obtain ⟨b1, b2, b3, b4, b5, b6, b7, b8⟩ := importPools_spec t (importPool s id p)
     unfold importPools
-    refine ⟨?_, b2.trans a2, ⟨b3.height.trans a3.height, b3.bank.trans a3.bank, b3.ledger.trans a3.ledger⟩,
+    refine ⟨?_, b2.trans a2, ⟨b3.height.trans a3.height, b3.bank.trans a3.bank, b3.ledger.trans a3.ledger, b3.cp.trans a3.cp⟩,
       b4.trans a4, b5.trans a5, b6.trans a6, ?_, fun hn => b8 (a8 hn)⟩
     · rw [b1, a1]; rfl
     · intro e
@@ -164,7 +165,7 @@ theorem importFarmers_spec : ∀ (l : List ((Addr × PoolId) × Farmer)) (s : St
     (∀ e ∈ l, ∃ p, getPool s e.1.2 = some p) →
     ∃ s', importFarmers s l = .ok s' ∧ s'.farmers = fromList l s.farmers ∧ s'.pools = s.pools ∧ s'.queue = s.queue ∧
       SameEnv s s' ∧ s'.seq = s.seq ∧ s'.params = s.params ∧ s'.resp = s.resp
-  | [], s, _ => ⟨s, rfl, rfl, rfl, rfl, ⟨rfl, rfl, rfl⟩, rfl, rfl, rfl⟩
+  | [], s, _ => ⟨s, rfl, rfl, rfl, rfl, ⟨rfl, rfl, rfl, rfl⟩, rfl, rfl, rfl⟩
   | ((a, id), f) :: t, s, h => by
     obtain ⟨p, hp⟩ := h ((a, id), f) (by simp)
     simp only at hp
@@ -173,7 +174,7 @@ theorem importFarmers_spec : ∀ (l : List ((Addr × PoolId) × Farmer)) (s : St
     simp only
     obtain ⟨s', e1, e2, e3, e4, e5, e6, e7, e8⟩ := importFarmers_spec t { s with farmers := AMap.set s.farmers (a, id) f }
       (fun e he => h e (by simp [he]))
-    exact ⟨s', e1, by rw [e2]; rfl, e3, e4, ⟨e5.height, e5.bank, e5.ledger⟩, e6, e7, e8⟩
+    exact ⟨s', e1, by rw [e2]; rfl, e3, e4, ⟨e5.height, e5.bank, e5.ledger, e5.cp⟩, e6, e7, e8⟩
 
 /-- the pools / farmers rebuilt from the exported lists answer like the originals -/
 theorem get?_fromList_exportPools (s : State) (id : PoolId) :
@@ -213,20 +214,31 @@ structure SameQueries (s s' : State) : Prop where
   fkeys   : GenesisList.NodupKeys s'.farmers
   seq     : s'.seq = s.seq
   params  : s'.params = s.params
-  env     : SameEnv s s'
+  height  : s'.height = s.height
+  bank    : s'.bank = s.bank
+  ledger  : s'.ledger = s.ledger
+  /-- the escrow infos answer the same; the rest of the community-pool state (community pool,
+  gov proposals, gov parameters) is not the farm module's and stays in place -/
+  escrow  : ∀ pid, AMap.get? s'.cp.escrow pid = AMap.get? s.cp.escrow pid
+  ekeys   : GenesisList.NodupKeys s'.cp.escrow
+  cpPool  : s'.cp.pool = s.cp.pool
+  cpProps : s'.cp.props = s.cp.props
+  cpNext  : s'.cp.nextId = s.cp.nextId
+  cpMin   : s'.cp.minDeposit = s.cp.minDeposit ∧ s'.cp.minFirst = s.cp.minFirst
 
 theorem validParams_eq {p : Params} (h : validParams p = true) : (!validParams p) = false := by simp [h]
 
 theorem import_export {s : State} (hi : Inv s) (hg : GenWF s) (hr : SeqInRange s) (hb : BlockStart s) :
     ∃ s', importGenesis s (exportGenesis s) = .ok s' ∧ SameQueries s s' := by
   have hv := export_validates hi hg hr
-  generalize hs0 : ({ s with pools := [], farmers := [], queue := [], seq := 0, resp := [] } : State) = s0
-  have h0p : s0.pools = [] := by rw [← hs0]
-  have h0f : s0.farmers = [] := by rw [← hs0]
-  have h0q : s0.queue = [] := by rw [← hs0]
-  have h0h : s0.height = s.height := by rw [← hs0]
-  have h0b : s0.bank = s.bank := by rw [← hs0]
-  have h0l : s0.ledger = s.ledger := by rw [← hs0]
+  generalize hs0 : wiped s = s0
+  have h0p : s0.pools = [] := by rw [← hs0]; rfl
+  have h0f : s0.farmers = [] := by rw [← hs0]; rfl
+  have h0q : s0.queue = [] := by rw [← hs0]; rfl
+  have h0h : s0.height = s.height := by rw [← hs0]; rfl
+  have h0b : s0.bank = s.bank := by rw [← hs0]; rfl
+  have h0l : s0.ledger = s.ledger := by rw [← hs0]; rfl
+  have h0c : s0.cp = { s.cp with escrow := [] } := by rw [← hs0]; rfl
   obtain ⟨a1, a2, a3, a4, a5, a6, a7, a8⟩ := importPools_spec (exportPools s) s0
   have hpoolsget : ∀ id, getPool (importPools s0 (exportPools s)) id = getPool s id := by
     intro id; unfold getPool; rw [a1, h0p]; exact get?_fromList_exportPools s id
@@ -237,7 +249,8 @@ theorem import_export {s : State} (hi : Inv s) (hg : GenWF s) (hr : SeqInRange s
     obtain ⟨p, hp⟩ := hi.core.fpool a id f hget
     exact ⟨p, by rw [hpoolsget]; exact hp⟩
   obtain ⟨s1, e1, e2, e3, e4, e5, e6, e7, e8⟩ := importFarmers_spec (exportFarmers s) _ hfp
-  refine ⟨{ s1 with seq := s.seq, params := s.params }, ?_, ?_⟩
+  have h1c : s1.cp = { s.cp with escrow := [] } := by rw [e5.cp, a3.cp, h0c]
+  refine ⟨{ (importEscrow s1 (exportEscrow s)) with seq := s.seq, params := s.params }, ?_, ?_⟩
   · unfold importGenesis
     rw [hv]
     simp only
@@ -248,10 +261,14 @@ theorem import_export {s : State} (hi : Inv s) (hg : GenWF s) (hr : SeqInRange s
     simp only
     have hpar : (exportGenesis s).params = s.params := rfl
     have hsq : (exportGenesis s).seq = s.seq := rfl
-    rw [hpar, hsq, validParams_eq hg.params]
+    have hesc : (exportGenesis s).escrow = exportEscrow s := rfl
+    rw [hpar, hsq, hesc, validParams_eq hg.params]
     simp
   · obtain ⟨q1, q2, q3⟩ := hi.core.queue
-    refine ⟨?_, ?_, ?_, ?_, ?_, ?_, rfl, rfl, ?_⟩
+    have hesc1 : (importEscrow s1 (exportEscrow s)).cp.escrow = fromList (exportEscrow s) ([] : AMap Nat Escrow) := by
+      show List.foldl _ s1.cp.escrow _ = _
+      rw [h1c]; rfl
+    refine ⟨?_, ?_, ?_, ?_, ?_, ?_, rfl, rfl, ?_, ?_, ?_, ?_, ?_, ?_, ?_, ?_, ?_⟩
     · intro id
       show AMap.get? s1.pools id = _
       rw [e3]; exact hpoolsget id
@@ -283,9 +300,18 @@ theorem import_export {s : State} (hi : Inv s) (hg : GenWF s) (hr : SeqInRange s
       rw [e3, a1, h0p]; exact nodupKeys_fromList _ _ List.nodup_nil
     · show GenesisList.NodupKeys s1.farmers
       rw [e2, a2, h0f]; exact nodupKeys_fromList _ _ List.nodup_nil
-    · exact ⟨by show s1.height = _; rw [e5.height, a3.height, h0h],
-             by show s1.bank = _; rw [e5.bank, a3.bank, h0b],
-             by show s1.ledger = _; rw [e5.ledger, a3.ledger, h0l]⟩
+    · show s1.height = _; rw [e5.height, a3.height, h0h]
+    · show s1.bank = _; rw [e5.bank, a3.bank, h0b]
+    · show s1.ledger = _; rw [e5.ledger, a3.ledger, h0l]
+    · intro pid
+      show AMap.get? (importEscrow s1 (exportEscrow s)).cp.escrow pid = _
+      rw [hesc1]; exact get?_fromList_exportEscrow s pid
+    · show GenesisList.NodupKeys (importEscrow s1 (exportEscrow s)).cp.escrow
+      rw [hesc1]; exact nodupKeys_fromList _ _ List.nodup_nil
+    · show s1.cp.pool = _; rw [h1c]
+    · show s1.cp.props = _; rw [h1c]
+    · show s1.cp.nextId = _; rw [h1c]
+    · exact ⟨by show s1.cp.minDeposit = _; rw [h1c], by show s1.cp.minFirst = _; rw [h1c]⟩
 
 /-! ### consequences of equal queries -/
 
@@ -312,7 +338,7 @@ theorem export_same {s s' : State} (h : SameQueries s s') : exportGenesis s' = e
     rw [sortDedup_congr (tail_mem_congr hfk a)]
     congr 1
     funext id; rw [hgf]
-  rw [e1, e2, h.seq, h.params]
+  rw [e1, e2, h.seq, h.params, exportEscrow_congr h.escrow]
 
 end Irismod.Proofs.FarmGenesis
 
@@ -347,16 +373,18 @@ theorem inv_same {s s' : State} (h : SameQueries s s') (hi : Inv s) (hg : GenWF 
   have hpperm : s'.pools.Perm s.pools :=
     perm_of_mem h.pkeys hg.poolKeys (mem_iff_of_get h.pkeys hg.poolKeys h.pools)
   obtain ⟨q1, q2, q3⟩ := hi.core.queue
-  refine ⟨⟨⟨?_, ?_, ?_, ⟨?_, ?_, h.qnodup⟩, ?_, ?_, ?_, ?_⟩, ⟨?_, h.fkeys⟩, ?_⟩, ?_⟩
-  · rw [h.env.height]; exact hi.core.hnn
+  refine ⟨⟨⟨?_, ?_, ?_, ⟨?_, ?_, h.qnodup⟩, ?_, ?_, ?_, ?_⟩, ⟨?_, h.fkeys⟩, ?_,
+    ⟨fun pid e hg2 => hi.cpu.1 pid e (by rw [← h.escrow]; exact hg2),
+     fun pid pr hg2 => hi.cpu.2 pid pr (by rw [← h.cpProps]; exact hg2)⟩⟩, ?_⟩
+  · rw [h.height]; exact hi.core.hnn
   · intro id p hp; rw [h.pools] at hp; exact hi.core.wf id p hp
-  · intro id p hp; rw [h.pools] at hp; rw [h.env.height]; exact hi.core.time id p hp
+  · intro id p hp; rw [h.pools] at hp; rw [h.height]; exact hi.core.time id p hp
   · intro hh id hm
     rw [h.queue] at hm
     obtain ⟨p, hp, he, hl⟩ := q1 hh id hm
-    exact ⟨p, by rw [h.pools]; exact hp, he, by rw [h.env.height]; exact hl⟩
+    exact ⟨p, by rw [h.pools]; exact hp, he, by rw [h.height]; exact hl⟩
   · intro id p hp hlt
-    rw [h.pools] at hp; rw [h.env.height] at hlt
+    rw [h.pools] at hp; rw [h.height] at hlt
     exact (h.queue _).mpr (q2 id p hp hlt)
   · intro id p hp ha
     rw [h.pools] at hp; rw [active_same h] at ha
@@ -370,14 +398,14 @@ theorem inv_same {s s' : State} (h : SameQueries s s') (hi : Inv s) (hg : GenWF 
     exact ⟨p, by rw [h.pools]; exact hp⟩
   · intro id p hp r hr
     rw [h.pools] at hp
-    exact (hi.core.ghost id p hp r hr).transfer (by rw [active_same h]; exact fun x => x) (by rw [h.env.height]; exact fun x => x)
+    exact (hi.core.ghost id p hp r hr).transfer (by rw [active_same h]; exact fun x => x) (by rw [h.height]; exact fun x => x)
   · intro id
     unfold C05.stakedSum C05.lockedOf
     rw [sumIf_perm _ _ hfperm, h.pools]
     exact hi.stakes.sum id
   · intro d
     unfold C05.expectedFarm AMap.sumBy
-    rw [h.env.bank, sumIf_perm _ _ hpperm]
+    rw [h.bank, sumIf_perm _ _ hpperm]
     exact hi.modacc d
   · refine ⟨h.pkeys, ?_, ?_, ?_, ?_, by rw [h.params]; exact hg.params⟩
     · intro id hid
